@@ -639,21 +639,10 @@ class Decompiler(object):
         return ast.comprehension(target, iter, ifs, 0)
 
     def FORMAT_VALUE(decompiler, flags):
-        conversion = -1
-        format_spec = None
-        if flags in (0, 1, 2, 3):
-            value = decompiler.stack.pop()
-            if flags == 0:
-                conversion = -1
-            elif flags == 1:
-                conversion = ord('s')  # str conversion
-            elif flags == 2:
-                conversion = ord('r')  # repr conversion
-            elif flags == 3:
-                conversion = ord('a')  # ascii conversion
-        elif flags == 4:
-            format_spec = decompiler.stack.pop()
-            value = decompiler.stack.pop()
+        # flags & 3: conversion (none, !s, !r, !a); flags & 4: a format spec is on the stack
+        conversion = (-1, ord('s'), ord('r'), ord('a'))[flags & 3]
+        format_spec = decompiler.stack.pop() if flags & 4 else None
+        value = decompiler.stack.pop()
         return ast.FormattedValue(value=value, conversion=conversion, format_spec=format_spec)
 
     def FORMAT_SIMPLE(decompiler):
